@@ -23,7 +23,7 @@ the environment step `release`).
 
 Ghost state (never read by a guard): `holder` (winner of the last successful CAS on `state`), the task
 table `tasks` (except `beh`/`released`, which only restrict when a task body returns), `returned`,
-`nStartOk`, `nShutOk`, `graceful`, `late`, `badExits`, `liveAtShut`, `pending`, `Task.subRes`.
+`nStartOk`, `nShutOk`, `graceful`, `late`, `badExits`, `liveAtShut`, `pending`, `idleExits`, `hwmGo`, `Task.subRes`.
 -/
 import Ekit.Conc.System
 namespace Ekit.Pool
@@ -238,6 +238,8 @@ structure St where
   badExits : Nat := 0        -- worker exits through the idle / above-core paths while closing
   liveAtShut : Nat := 0      -- totalGo at the moment of Shutdown's successful CAS
   pending : Nat := 0         -- workers already counted in totalGo whose `go` statement has not run yet
+  idleExits : Nat := 0       -- worker exits through the idle-timeout branch (ever)
+  hwmGo : Nat := 0           -- high-water mark of totalGo
 
 instance : Inhabited St := ⟨{}⟩
 
@@ -283,7 +285,7 @@ def wAct (c : Cfg) (s : St) (i : Nat) (w : Worker) : WAct → Option St
   | .idleWrite => if w.pc = .idleHeld then
       some ({ s with totalGo := w.v - 1, mu := ⟨none, 0⟩,
                      grpN := if w.inGroup then s.grpN - 1 else s.grpN,
-                     badExits := s.badExits + closingNow s }.setW i
+                     badExits := s.badExits + closingNow s, idleExits := s.idleExits + 1 }.setW i
               { w with pc := .exited, inGroup := false }) else none
   -- case task, ok := <-b.queue:
   | .selRecv => match s.queue with
@@ -444,7 +446,8 @@ def cAct (c : Cfg) (s : St) (t : Nat) (cl : Caller) : CAct → Option St
   | .incLock => if cl.pc = .subIncWant ∧ s.mu.free = true then
       some ({ s with mu := ⟨some (.c t), 0⟩ }.setC t { cl with pc := .subIncHeld, v := s.totalGo }) else none
   | .incWrite => if cl.pc = .subIncHeld then
-      some ({ s with totalGo := cl.v + 1, mu := ⟨none, 0⟩, pending := s.pending + 1 }.setC t { cl with pc := .subSpawn }) else none
+      some ({ s with totalGo := cl.v + 1, mu := ⟨none, 0⟩, pending := s.pending + 1,
+                     hwmGo := max s.hwmGo (cl.v + 1) }.setC t { cl with pc := .subSpawn }) else none
   -- id := atomic.AddInt32(&b.id, 1); go b.goroutine(id)
   | .spawn => if cl.pc = .subSpawn then
       some (toUnlock ({ s with workers := s.workers ++ [newWorker], pending := s.pending - 1 } : St) t cl .ok) else none
@@ -473,7 +476,8 @@ def cAct (c : Cfg) (s : St) (t : Nat) (cl : Caller) : CAct → Option St
   | .stIncLock => if cl.pc = .stIncWant ∧ s.mu.free = true then
       some ({ s with mu := ⟨some (.c t), 0⟩ }.setC t { cl with pc := .stIncHeld, v := s.totalGo }) else none
   | .stIncWrite => if cl.pc = .stIncHeld then
-      some ({ s with totalGo := cl.v + cl.k, mu := ⟨none, 0⟩, pending := s.pending + cl.k }.setC t { cl with pc := .stSpawn }) else none
+      some ({ s with totalGo := cl.v + cl.k, mu := ⟨none, 0⟩, pending := s.pending + cl.k,
+                     hwmGo := max s.hwmGo (cl.v + cl.k) }.setC t { cl with pc := .stSpawn }) else none
   | .stSpawn => if cl.pc = .stSpawn ∧ 0 < cl.k then
       some ({ s with workers := s.workers ++ [newWorker], pending := s.pending - 1 }.setC t { cl with k := cl.k - 1 }) else none
   | .stUnlock => if cl.pc = .stSpawn ∧ cl.k = 0 then
